@@ -191,6 +191,14 @@ func (f *Flow) mkTerm(v ssa.Value) *Term {
 			z := &Term{K: TConst, C: new(big.Int), T: v.Type(), key: "0"}
 			return &Term{K: TBin, Op: token.SUB, A: z, B: a, T: v.Type(), key: "(0 - " + a.key + ")"}
 		case token.MUL:
+			// load of a field of the receiver / a pointer parameter: one symbol per
+			// field (the codec functions do not reassign a table between a guard
+			// on it and the guarded use)
+			if fa, ok := x.X.(*ssa.FieldAddr); ok {
+				if p, ok := fa.X.(*ssa.Parameter); ok {
+					return &Term{K: TLeaf, V: v, T: v.Type(), key: fmt.Sprintf("<fld:%s.%d>", p.Name(), fa.Field)}
+				}
+			}
 			if g, ok := x.X.(*ssa.Global); ok {
 				if c, ok := f.w.globalInit(g); ok {
 					return f.mkTermFromInit(c, v.Type())
@@ -233,6 +241,17 @@ func (f *Flow) mkTerm(v ssa.Value) *Term {
 				keys = append(keys, ta.key)
 			}
 			return &Term{K: TPure, Name: name, Args: args, T: v.Type(), key: "pure:" + name + "(" + strings.Join(keys, ",") + ")"}
+		}
+	case *ssa.Index:
+		if b, ok := x.X.Type().Underlying().(*types.Basic); ok && b.Info()&types.IsString != 0 {
+			a, i := f.term(x.X), f.term(x.Index)
+			return &Term{K: TPure, Name: "strindex", Args: []*Term{a, i}, T: v.Type(), key: "idx(" + a.key + "," + i.key + ")"}
+		}
+	case *ssa.Lookup:
+		// indexing an (immutable) string: one symbol per (string, index)
+		if b, ok := x.X.Type().Underlying().(*types.Basic); ok && b.Info()&types.IsString != 0 && !x.CommaOk {
+			a, i := f.term(x.X), f.term(x.Index)
+			return &Term{K: TPure, Name: "strindex", Args: []*Term{a, i}, T: v.Type(), key: "idx(" + a.key + "," + i.key + ")"}
 		}
 	case *ssa.Extract:
 		// tag handed on: result #0 of getTag(reader, flag) is byte(flag) unless
@@ -380,6 +399,22 @@ func (f *Flow) evalStruct(t *Term, env Env, fl *evalFlags) ISet {
 		}
 		return single(0)
 	case TLeaf:
+		if ex, ok := t.V.(*ssa.Extract); ok {
+			if c, ok := ex.Tuple.(*ssa.Call); ok {
+				if sc := c.Call.StaticCallee(); sc != nil && f.w.inPkg(sc) {
+					if r := f.w.retRange(sc, ex.Index); r != nil {
+						return r
+					}
+				}
+			}
+		}
+		if c, ok := t.V.(*ssa.Call); ok {
+			if sc := c.Call.StaticCallee(); sc != nil && f.w.inPkg(sc) && sc.Signature.Results().Len() == 1 {
+				if r := f.w.retRange(sc, 0); r != nil {
+					return r
+				}
+			}
+		}
 		return f.top(t.T)
 	case TPure:
 		top := f.top(t.T)
@@ -702,6 +737,12 @@ func (f *Flow) refine(env Env, cond *Term, truth bool) (Env, bool) {
 		out := env.clone()
 		f.assign(out, cond.A, na)
 		f.assign(out, cond.B, nb)
+		// relational fact: the comparison's own outcome (used by the index-guard rule)
+		if truth {
+			out[cond.key] = single(1)
+		} else {
+			out[cond.key] = single(0)
+		}
 		return out, true
 	}
 	return env, true
@@ -995,6 +1036,45 @@ func (f *Flow) refinePhiCond(b *ssa.BasicBlock, phi *ssa.Phi, env Env, truth boo
 		}
 	}
 	return res, true
+}
+
+// retRange: the union over the returns of fn of the interval of result idx
+// (context-insensitive; nil when not an integer or recursive).
+func (w *World) retRange(fn *ssa.Function, idx int) ISet {
+	key := retKey{fn, idx}
+	if r, ok := w.rets[key]; ok {
+		return r
+	}
+	if w.rets == nil {
+		w.rets = map[retKey]ISet{}
+	}
+	w.rets[key] = nil // recursion guard
+	if fn.Blocks == nil || idx >= fn.Signature.Results().Len() {
+		return nil
+	}
+	if _, _, ok := intTypeInfo(w, fn.Signature.Results().At(idx).Type()); !ok {
+		return nil
+	}
+	f := w.flow(fn)
+	var acc ISet
+	for _, b := range fn.Blocks {
+		ret, ok := b.Instrs[len(b.Instrs)-1].(*ssa.Return)
+		if !ok || !f.Reachable(b) {
+			continue
+		}
+		s, _ := f.ValueAt(ret.Results[idx], b)
+		if s == nil {
+			return nil
+		}
+		acc = acc.Union(s)
+	}
+	w.rets[key] = acc
+	return acc
+}
+
+type retKey struct {
+	fn  *ssa.Function
+	idx int
 }
 
 // Reachable reports whether the block is reachable under the analysed facts.
